@@ -272,8 +272,8 @@ class Engine:
         self.serial += 1
         return self.serial
 
-    def mk_bytes(self, items, mutable, kind=None):
-        return Bytes(items, mutable, self.new_serial(), kind)
+    def mk_bytes(self, items, mutable, kind=None, base=None):
+        return Bytes(items, mutable, self.new_serial(), kind, base)
 
     def mk_list(self, items):
         return PList(items, self.new_serial())
@@ -1510,7 +1510,7 @@ class Engine:
                 return "".join(o[i] for i in rng)
             r = [seq[i] for i in rng]
             if kind == "bytes":
-                return self.mk_bytes(r, o.mutable, o.kind)
+                return self.mk_bytes(r, o.mutable, o.kind, o.base)      # a slice of a memoryview keeps its base object
             if kind == "str":
                 return Str(r)
             if kind == "list":
@@ -1769,6 +1769,11 @@ class Engine:
         if isinstance(o, PyExc):
             o = o.obj
             return self.getattr(o, name)
+        if isinstance(o, Bytes) and o.kind == "memoryview":
+            if name == "obj":
+                return o.base
+            if name == "nbytes":
+                return len(o.items)
         key = (self.type_name(o), name)
         m = self.methods.get(key)
         if m is None:
